@@ -24,6 +24,7 @@ CNext ==
           /\ <<n, ep, sh>> \in DOMAIN cfg
           /\ \/ Compute(n, seed, ep, sh, <<>>)
              \/ \E xs \in XsAll : Compute(n, seed, ep, sh, xs)
+             \/ \E fc \in BOOLEAN : ComputeConc(n, seed, ep, sh, fc)
 
 CSpec == CInit /\ [][CNext]_cvars2
 ====
